@@ -51,6 +51,7 @@ use tu_verif::run::Run;
 /// 1-, 2-, 3- and 4-byte code points, a 3-byte two-code-point cluster and an 8-byte cluster (a flag:
 /// two regional indicators; in code-point mode two 4-byte characters)
 const ALPHA: [&str; 6] = ["a", "ä", "€", "😀", "e\u{301}", "🇩🇪"];
+const CRLF_ALPHA: [&str; 3] = ["a", "\r", "\n"];
 const MAXES: std::ops::RangeInclusive<usize> = 1..=12;
 const CONTEXTS: std::ops::RangeInclusive<usize> = 0..=4;
 
@@ -369,13 +370,17 @@ fn main() {
     }
     let max_len = run.pick(5, 7);
     // non-empty strings only: the statement is about non-empty texts
-    let all: Vec<String> = strings(&ALPHA, max_len).into_iter().skip(1).collect();
+    let mut all: Vec<String> = strings(&ALPHA, max_len).into_iter().skip(1).collect();
+    // second family: pure-ASCII texts in which a character is nevertheless two bytes / two code
+    // points -- CR LF is one grapheme cluster (units follow the first family's)
+    all.extend(strings(&CRLF_ALPHA, max_len + 1).into_iter().filter(|s| s.contains('\r') || s.contains('\n')));
     let grid = format!("max {MAXES:?} x context {CONTEXTS:?} x {{char, byte}} windows, the full window, possible_{{character,byte}}_substrings with max {MAXES:?}; all x use_graphemes");
     if let Some(n) = run.describe_unit() {
         println!("{}", json!({"s": all[n as usize], "grid": grid}));
         return;
     }
     run.bounds.insert("alphabet".into(), json!(ALPHA));
+    run.bounds.insert("second_alphabet".into(), json!({"symbols": CRLF_ALPHA, "symbols_per_string": format!("1..={}", max_len + 1), "rule": "strings with at least one CR or LF"}));
     run.bounds.insert("symbols_per_string".into(), json!(format!("1..={max_len}")));
     run.bounds.insert("strings".into(), json!(all.len()));
     run.bounds.insert("max".into(), json!(format!("{MAXES:?}")));
